@@ -210,7 +210,16 @@ def real(case):
     if case.get("dims_first"):
         dims = dims[1:] + dims[:1]
     filters = {"v": ["t.v >= 1"], "cat": ["t.ts_cat = 'a'"], None: []}[case["filt"]]
-    sql = L.compile(metrics=["t.m%d" % j for j in range(len(case["mets"]))], dimensions=dims, filters=filters)
+    params = None
+    import zlib
+    if filters and zlib.crc32(repr((case["gran"], case["filt"], case["ndims"], len(case["rows"]), case["mets"])).encode()) % 2:
+        # every other filtered case writes the same filter through a declared parameter whose DEFAULT selects other rows than the value the caller supplies
+        from sidemantic.core.parameter import Parameter
+        L.graph.add_parameter(Parameter(name="minv", type="number", default_value=1000))
+        L.graph.add_parameter(Parameter(name="wanted", type="string", default_value="zz"))
+        filters = {"v": ["t.v >= {{ minv }}"], "cat": ["t.ts_cat = {{ wanted }}"]}[case["filt"]]
+        params = {"minv": 1, "wanted": "a"}
+    sql = L.compile(metrics=["t.m%d" % j for j in range(len(case["mets"]))], dimensions=dims, filters=filters, **({"parameters": params} if params else {}))
     cur = L.conn.execute(sql)
     cols = [d[0] for d in cur.description]
     rows = cur.fetchall()
